@@ -130,6 +130,17 @@ func (e *Env) parseType(txt string) types.Type {
 				}
 			}
 		}
+		// composite type text mentioning (possibly unexported) types of one other repository package,
+		// e.g. map[string]*align.seq: evaluate it inside that package with the qualifier removed
+		for path, pk := range e.p.pkgs {
+			if pk.Types == nil || !strings.HasPrefix(path, e.p.module) || !strings.Contains(txt, pk.Types.Name()+".") {
+				continue
+			}
+			stripped := strings.ReplaceAll(txt, pk.Types.Name()+".", "")
+			if tv3, err3 := types.Eval(token.NewFileSet(), pk.Types, token.NoPos, stripped); err3 == nil && tv3.IsType() {
+				return tv3.Type
+			}
+		}
 		efail("cannot resolve type %q in package %s", txt, e.pkg.Name())
 	}
 	return tv.Type
@@ -332,6 +343,10 @@ func (e *Env) field(v SVal, name string) SVal {
 		s := cur.Underlying().(*types.Struct)
 		f := s.Field(idx)
 		if i == len(index)-1 {
+			if _, isStruct := f.Type().Underlying().(*types.Struct); isStruct {
+				// a struct-valued field lives inside its object: same object id, typed as a pointer to the inner struct
+				return SVal{T: ref, Typ: types.NewPointer(f.Type())}
+			}
 			h := e.p.fieldHeap(cur, f)
 			return SVal{T: Select(e.cur.H(e.p, h), ref), Typ: fv.Type()}
 		}
@@ -647,6 +662,18 @@ func (e *Env) call(x SCall) SVal {
 			return SVal{T: t, Typ: tInt}
 		}
 		return SVal{T: Var("ghost."+id.Name+"@0", SInt), Typ: tInt}
+	case "gfield":
+		// gfield(obj, name): ghost integer field `name` of object obj (specification-only state, e.g. the
+		// number of runes left in a bufio.Reader); written only by assumed contracts of library functions
+		argn(2)
+		o := e.elab(x.Args[0])
+		id, ok := x.Args[1].(SIdent)
+		if !ok {
+			efail("gfield(obj, name): name must be an identifier")
+		}
+		h := "GH:" + id.Name
+		e.p.registerHeap(h, ArraySort(SInt, SInt))
+		return SVal{T: Select(e.cur.H(e.p, h), o.T), Typ: tInt}
 	case "visited":
 		argn(1)
 		v, ok := e.vars["$vis"]
